@@ -79,6 +79,7 @@ def cond_on(ctx, shard, tier, p, kind, D, R, N, vi, mu, Sig, lists, prep):
         ctx.close("joint.value", lpj, refj)
         with ctx.guard("joint.call"):
             objs.call_matches(ctx, "joint.call_value", p(J(x)), refj, lscale=objs.ln_scale(x, Sig))
+        objs.elementwise_matches(ctx, "joint.elementwise", p, mu, Sig, facts=dict(prep=prep), salt=vi)
         for b in lists:
             a_sorted = [d for d in range(D) if d not in b]
             variants = [("condition_on", a_sorted)]
